@@ -659,3 +659,18 @@ func (vc *VC) constArray(arrSort, v string) string {
 	vc.assume(fmt.Sprintf("(forall ((i %s)) (! (= (select %s i) %s) :pattern ((select %s i))))", idx, n, v, n))
 	return n
 }
+
+// ---- absolute element indices. Slice elements are addressed as arr[idx(off, i)] where idx
+// is an uninterpreted function with the defining axiom idx(o, a) == o + a (pattern idx(o, a)),
+// in program reads/writes and in contract expressions alike. A quantified clause over s[i] then
+// has the trigger select(arr, idx(off, i)) in which the bound variable occurs as a plain argument
+// (select arr (+ off i) is useless for e-matching: the solvers normalise the sum away).
+func (vc *VC) absIdx(slice, i string) string {
+	off := fmt.Sprintf("(soff %s)", slice)
+	if vc.isBV() {
+		return fmt.Sprintf("(bvadd %s %s)", off, i)
+	}
+	vc.decl("f:idx", "(declare-fun idx (Int Int) Int)")
+	vc.decl("ax:idx", "(assert (forall ((o Int) (a Int)) (! (= (idx o a) (+ o a)) :pattern ((idx o a)))))")
+	return fmt.Sprintf("(idx %s %s)", off, i)
+}
